@@ -167,6 +167,14 @@ func verifC15FindProject(path string) (*Project, error) {
 	return nil, nil
 }
 
+func verifC15FindProjectRoot(path string) string {
+	d := absPath(path)
+	if d == "/r" || (len(d) > 3 && d[:3] == "/r/") {
+		return "/r"
+	}
+	return ""
+}
+
 // HarnessC15Cwd: the same file /r/.github/workflows/w.yml is linted from four
 // working directories with three spellings of the path; the string handed to
 // the glob matcher of the `paths` configuration must always be the
@@ -196,6 +204,7 @@ func HarnessC15Cwd() {
 	verifC15c.globArgs = nil
 	verifOverride("os.ReadFile", verifC15ReadFile)
 	verifOverride("findProject", verifC15FindProject)
+	verifOverride("findProjectRoot", verifC15FindProjectRoot)
 	verifOverride("loadRepoConfig", verifC15RepoConfig)
 	verifOverride("Parse", verifC15Parse)
 	verifOverride("github.com/bmatcuk/doublestar/v4.MatchUnvalidated", verifC15RecGlob)
@@ -249,6 +258,7 @@ func HarnessC15Check() {
 	verifC15Src = src
 	verifOverride("os.ReadFile", verifC15ReadSrc)
 	verifOverride("findProject", verifC15FindProject)
+	verifOverride("findProjectRoot", verifC15FindProjectRoot)
 	verifOverride("loadRepoConfig", verifC15RepoConfigPat)
 	verifC15PathsPattern = ""
 	l0 := verifLinter("/r", "", "")
@@ -302,6 +312,7 @@ func HarnessC15MultiRepo() {
 	verifSetCwd("/")
 	verifOverride("os.ReadFile", verifC10ReadFile)
 	verifOverride("findProject", verifC10FindProject)
+	verifOverride("findProjectRoot", verifC10FindProjectRoot)
 	verifOverride("loadRepoConfig", verifC10RepoConfig)
 	single := make([]string, len(paths))
 	for k, p := range paths {
